@@ -586,6 +586,31 @@ func init() {
 			}
 		}
 
+		// ---------------------------------------------------------------------------------- Service.Truncate: Sync before Size
+		visitorSyncs := false
+		if td := funcDecl(f, "Service", "Truncate"); td != nil {
+			// in statement order: a <journal>.Sync() call before the first `… := <journal>.Size()` of the function
+			synced, sized := false, false
+			pp.walk(td, 1, func(n ast.Node, inHelper bool) {
+				if inHelper || sized {
+					return
+				}
+				switch s := n.(type) {
+				case *ast.CallExpr:
+					if selName(s.Fun) == "Sync" {
+						synced = true
+					}
+				case *ast.AssignStmt:
+					if len(s.Rhs) == 1 {
+						if ce, ok := s.Rhs[0].(*ast.CallExpr); ok && selName(ce.Fun) == "Size" {
+							sized = true
+							visitorSyncs = synced
+						}
+					}
+				}
+			})
+		}
+
 		// ---------------------------------------------------------------------------------- deleteJournal
 		recheck, syncsFirst := false, false
 		if dd := funcDecl(f, "Service", "deleteJournal"); dd == nil {
@@ -708,6 +733,8 @@ func init() {
 		l.p("def deleteJournalRechecksSize : Bool := %s", leanBool(recheck))
 		l.p("/-- `deleteJournal` calls `Sync()` on the journal under the exclusive lock before that re-check (acknowledged records count in `Size()` only after their flush) -/")
 		l.p("def deleteJournalSyncsBeforeRecheck : Bool := %s", leanBool(syncsFirst))
+		l.p("/-- the visitor of `Service.Truncate` calls `Sync()` on the journal before it reads `Size()` (dry run and real run alike) -/")
+		l.p("def truncateVisitorSyncsBeforeSize : Bool := %s", leanBool(visitorSyncs))
 		l.p("/-- `truncate` (or a helper it calls) reads `Size()` of the journal for the total -/")
 		l.p("def truncateReadsJournalSize : Bool := %s", leanBool(readsJournalSize))
 		l.p("/-- the total is accumulated as `A[i] = uint64(c.Size()); total += A[i]` over one snapshot of the chunk sizes -/")
